@@ -42,6 +42,33 @@ def is_call_to_any(event, name) -> bool:
     return is_call_to(event, name)
 
 
+def _closes(path, what: str) -> bool:
+    """the object ``what`` is closed if it can be closed at all: through a helper that
+    does that for its argument, or by looking up ``.close`` and calling it unless the
+    lookup fails"""
+    for index, event in enumerate(path.events):
+        node = event.node
+        if event.kind in ('call', 'enter') and isinstance(node, ast.Call) and node.args and \
+                rules.value_text(path, index, node.args[0]) == what:
+            for callee in event_callees(event):
+                if callee.fn.name.endswith('close') and len(
+                        callee.fn.node.args.args) == 1:
+                    return True
+        if event.kind == 'call' and isinstance(node, ast.Call) and \
+                rules.value_text(path, index, node.func) == '%s.close' % what:
+            return True
+        if event.kind == 'getattr' and isinstance(node, ast.Attribute) and \
+                node.attr == 'close' and rules.value_text(path, index, node.value) == what:
+            rest = path.events[index + 1:]
+            if rest and rest[0].kind == 'handler' and 'AttributeError' in rest[0]['exc']:
+                return True  # nothing to close
+            if any(e.kind == 'call' and isinstance(e.node, ast.Call)
+                   and rules.value_text(path, index + 1 + k, e.node.func) == '%s.close' % what
+                   for k, e in enumerate(rest)):
+                return True
+    return False
+
+
 def _close_steps(path):
     """[(index, step)] of the closing sequence in Scope.__aexit__ itself (inlined helpers
     count as the place they are called from; an override chaining to super() is one step)"""
@@ -189,7 +216,7 @@ def run(check, an: Analysis):
                                                           False),
                 kill=lambda e: e.kind == 'store' and e['path'] == 'self._interruptable') \
                 is not None
-            tidy = any(is_call_to(e, 'try_close') for e in path.events)
+            tidy = _closes(path, 'payload')
             ok = closed and tidy and not created and not sched
             check.instance('R', 'do:refused', ok, event.where,
                            'a scope that has ended closes the payload and raises '
@@ -236,7 +263,7 @@ def run(check, an: Analysis):
             continue
         calls = [e for e in path.events if is_call_to(e, '__child_finished__')
                  and e.depth == 0]
-        closed_payload = any(is_call_to(e, 'try_close') for e in path.events)
+        closed_payload = _closes(path, 'self.payload')
         prerun = any(tested(e, ('isnone', 'self._result'), False) for e in path.events[:3])
         key = ('pre-run-exit' if prerun else 'ran', len(calls) == 1 and closed_payload)
         kinds.setdefault(key, path)
